@@ -51,6 +51,9 @@ Accept(e) ==
          /\ e.lpf[1] \in {0, 1} /\ e.hpf[1] \in {0, 1}            \* finite and not negative
          /\ DLe(DZero, e.lpf) /\ DLe(e.lpf, DOne) /\ DLe(DZero, e.hpf) /\ DLe(e.hpf, DOne)
          /\ ((e.e >= -12 /\ e.e <= 12) => (DLt(DZero, e.lpf) /\ DLt(e.lpf, DOne) /\ DLt(DZero, e.hpf) /\ DLt(e.hpf, DOne)))
+         \* the macro spellings (with compound expressions as arguments) give the same coefficient as the functions, state zeroed
+         /\ \A i \in 1..3 : e.lpf_macro[i] = (IF i = 3 THEN e.lpf ELSE e.lpf_ref) /\ e.hpf_macro[i] = (IF i = 3 THEN e.hpf ELSE e.hpf_ref)
+         /\ e.zeroed = 1
     [] OTHER -> FALSE
 
 TraceInit == num = <<>> /\ den = <<>> /\ hist = <<>> /\ l = 1
